@@ -266,4 +266,501 @@ theorem rowsOfType_mergeCells (c1 c2 : List (String × List (List Nat))) (pmap :
     | some b2 => rfl
     | none => rfl
 
+/-! ### merged cell fields -/
+
+theorem mem_dedupNames (l : List String) (n : String) : n ∈ dedupNames l ↔ n ∈ l := by
+  induction l with
+  | nil => simp [dedupNames]
+  | cons x r ih =>
+    simp only [dedupNames, List.mem_cons, List.mem_filter, ih, bne_iff_ne, ne_eq]
+    constructor
+    · rintro (h | ⟨h, _⟩)
+      · exact Or.inl h
+      · exact Or.inr h
+    · rintro (h | h)
+      · exact Or.inl h
+      · by_cases hx : n = x
+        · exact Or.inl hx
+        · exact Or.inr ⟨h, hx⟩
+
+theorem mergeCellEntry_name_ctype (name ct : String) (a b : Option CellField) (e : CellField)
+    (h : mergeCellEntry name ct a b = some e) : e.name = name ∧ e.ctype = ct := by
+  cases a <;> cases b <;> simp [mergeCellEntry] at h <;> subst h <;> exact ⟨rfl, rfl⟩
+
+theorem findCellField_none_of_not_mem (cfs : List CellField) (n ct : String)
+    (h : n ∉ cfs.map (·.name)) : findCellField cfs n ct = none := by
+  unfold findCellField
+  rw [List.find?_eq_none]
+  intro cf hcf hp
+  simp only [Bool.and_eq_true, beq_iff_eq] at hp
+  exact h (List.mem_map.mpr ⟨cf, hcf, hp.1⟩)
+
+/-- lookup in one type block of the merged cell fields -/
+theorem find_in_block (G : String → Option CellField) (ct n : String)
+    (hG : ∀ m e, G m = some e → e.name = m ∧ e.ctype = ct) (ns : List String) :
+    (ns.filterMap G).find? (fun cf => cf.name == n && cf.ctype == ct) =
+      if n ∈ ns then G n else none := by
+  induction ns with
+  | nil => simp
+  | cons m ms ih =>
+    simp only [List.filterMap_cons]
+    cases hm : G m with
+    | none =>
+      simp only [ih, List.mem_cons]
+      by_cases hnm : n = m
+      · subst hnm; simp [hm]
+      · simp [hnm]
+    | some e =>
+      obtain ⟨he1, he2⟩ := hG m e hm
+      simp only [List.find?_cons, he1, he2, beq_self_eq_true, Bool.and_true, List.mem_cons]
+      by_cases hnm : m = n
+      · subst hnm; simp [hm]
+      · have : (m == n) = false := by simpa using hnm
+        rw [this, ih]
+        have hnm' : ¬ n = m := fun h => hnm h.symm
+        simp [hnm']
+
+theorem find_other_block (G : String → Option CellField) (t ct n : String) (htc : t ≠ ct)
+    (hG : ∀ m e, G m = some e → e.ctype = t) (ns : List String) :
+    (ns.filterMap G).find? (fun cf => cf.name == n && cf.ctype == ct) = none := by
+  rw [List.find?_eq_none]
+  intro cf hcf hp
+  simp only [List.mem_filterMap] at hcf
+  obtain ⟨m, _, hm⟩ := hcf
+  simp only [Bool.and_eq_true, beq_iff_eq] at hp
+  exact htc ((hG m cf hm).symm.trans hp.2)
+
+/-- **merged cell data**: on every cell type of the merged mesh, field `n` is the concatenation of
+    the two sides' values (or the one side that has it) -/
+theorem findCellField_merge (types : List String) (cf1 cf2 : List CellField) (n ct : String)
+    (hct : ct ∈ types) :
+    findCellField (mergeCellFields types cf1 cf2) n ct =
+      mergeCellEntry n ct (findCellField cf1 n ct) (findCellField cf2 n ct) := by
+  have hblock : ∀ t, ((dedupNames (cf1.map (·.name) ++ cf2.map (·.name))).filterMap fun name =>
+      mergeCellEntry name t (findCellField cf1 name t) (findCellField cf2 name t)).find?
+        (fun cf => cf.name == n && cf.ctype == ct) =
+      if t = ct then mergeCellEntry n ct (findCellField cf1 n ct) (findCellField cf2 n ct) else none := by
+    intro t
+    by_cases htc : t = ct
+    · subst htc
+      simp only [if_true]
+      rw [find_in_block _ t n (fun m e h => mergeCellEntry_name_ctype m t _ _ e h)]
+      by_cases hn : n ∈ dedupNames (cf1.map (·.name) ++ cf2.map (·.name))
+      · simp [hn]
+      · simp only [hn, if_false]
+        rw [mem_dedupNames, List.mem_append, not_or] at hn
+        rw [findCellField_none_of_not_mem cf1 n t hn.1, findCellField_none_of_not_mem cf2 n t hn.2]
+        rfl
+    · simp only [htc, if_false]
+      exact find_other_block _ t ct n htc (fun m e h => (mergeCellEntry_name_ctype m t _ _ e h).2) _
+  unfold mergeCellFields findCellField
+  induction types with
+  | nil => cases hct
+  | cons t ts ih =>
+    simp only [List.flatMap_cons, List.find?_append]
+    have hb := hblock t
+    simp only [findCellField] at hb
+    rw [hb]
+    by_cases htc : t = ct
+    · simp only [htc, if_true]
+      by_cases hts : ct ∈ ts
+      · rw [ih hts]; cases mergeCellEntry n ct _ _ <;> rfl
+      · cases hm : mergeCellEntry n ct (cf1.find? fun cf => cf.name == n && cf.ctype == ct)
+            (cf2.find? fun cf => cf.name == n && cf.ctype == ct) with
+        | some e => rfl
+        | none =>
+          simp only [Option.none_or]
+          rw [List.find?_eq_none]
+          intro cf hcf hp
+          simp only [List.mem_flatMap, List.mem_filterMap] at hcf
+          obtain ⟨t', ht', m, _, hm'⟩ := hcf
+          simp only [Bool.and_eq_true, beq_iff_eq] at hp
+          have := (mergeCellEntry_name_ctype m t' _ _ cf hm').2
+          exact hts (by rw [← hp.2, this]; exact ht')
+    · simp only [htc, if_false, Option.none_or]
+      rcases List.mem_cons.mp hct with h | h
+      · exact absurd h.symm htc
+      · exact ih h
+
+/-! ### rows of concatenated arrays -/
+
+theorem row_concat_left (a b : NdArr) (l1 c : Nat) (ha : a.data.length = l1 * a.rowSize) (hc : c < l1) :
+    (a.concat b).row c = a.row c := by
+  have hrs : (a.concat b).rowSize = a.rowSize := by simp [NdArr.concat, NdArr.rowSize]
+  simp only [NdArr.row, hrs]
+  simp only [NdArr.concat]
+  have h1 : (c + 1) * a.rowSize ≤ l1 * a.rowSize := Nat.mul_le_mul_right _ hc
+  rw [Nat.add_mul, Nat.one_mul] at h1
+  rw [List.drop_append_of_le_length (by omega), List.take_append_of_le_length (by simp; omega)]
+
+theorem row_concat_right (a b : NdArr) (l1 c : Nat) (ha : a.data.length = l1 * a.rowSize)
+    (hrs : b.rowSize = a.rowSize) : (a.concat b).row (l1 + c) = b.row c := by
+  have hrs' : (a.concat b).rowSize = a.rowSize := by simp [NdArr.concat, NdArr.rowSize]
+  simp only [NdArr.row, hrs', hrs]
+  simp only [NdArr.concat]
+  have : (l1 + c) * a.rowSize = a.data.length + c * a.rowSize := by rw [Nat.add_mul, ha]
+  rw [this, List.drop_append]
+  rw [List.drop_eq_nil_of_le (by omega)]
+  simp
+
+theorem row_out_of_range (a : NdArr) (l c : Nat) (ha : a.data.length = l * a.rowSize) (hc : l ≤ c) :
+    a.row c = [] := by
+  simp only [NdArr.row]
+  have : l * a.rowSize ≤ c * a.rowSize := Nat.mul_le_mul_right _ hc
+  rw [List.drop_eq_nil_of_le (by omega)]
+  simp
+
+/-! ### one `_merge` step -/
+
+/-- what the theorems assume about one piece (and what every merge step preserves):
+    rows of one length, no coincident points, cell corners in range, well-formed field arrays whose
+    entry size depends on the field name only, every named field present where there are cells -/
+structure PieceOk (f : MeshFields) (d : Nat) (cnames pnames : List String) (rsC rsP : String → Nat) : Prop where
+  rows : ∀ p ∈ f.mesh.points, p.length = d
+  nodup : f.mesh.points.Nodup
+  cellIdx : ∀ b ∈ f.mesh.cells, ∀ row ∈ b.2, ∀ p ∈ row, p < f.mesh.points.length
+  cfWf : ∀ cf ∈ f.cellFields,
+    cf.values.data.length = (f.mesh.cellsOf cf.ctype).length * cf.values.rowSize ∧
+    cf.values.rowSize = rsC cf.name
+  cfComplete : ∀ ct, f.mesh.cellsOf ct ≠ [] → ∀ n ∈ cnames, (findCellField f.cellFields n ct).isSome = true
+  pfWf : ∀ pf ∈ f.pointFields,
+    pf.values.data.length = f.mesh.points.length * pf.values.rowSize ∧ pf.values.rowSize = rsP pf.name
+  pfComplete : ∀ n ∈ pnames, (f.pointFields.find? (·.name == n)).isSome = true
+
+/-- the duplicate map of one step -/
+def stepDups (srt : List (List Int) → List Nat) (f1 f2 : MeshFields) : List (Option Nat) :=
+  mapDuplicatePoints (srt f2.mesh.points) f2.mesh.points f1.mesh.points
+
+/-- the result of `_merge` when the later piece brings a new point -/
+def stepResult (srt : List (List Int) → List Nat) (f1 f2 : MeshFields) : MeshFields :=
+  let dups := stepDups srt f1 f2
+  let pmap := mapExternal dups f1.mesh.points.length
+  let cells := mergeCells f1.mesh.cells f2.mesh.cells pmap
+  { mesh := ⟨f1.mesh.dim, mergedPoints f1.mesh.points f2.mesh.points dups, cells⟩
+    pointFields := mergePointFields f1.mesh.points.length f2.mesh.points.length (filterExternal dups)
+      f1.pointFields f2.pointFields
+    cellFields := mergeCellFields (cells.map (·.1)) f1.cellFields f2.cellFields }
+
+theorem merge1_eq_stepResult (srt : List (List Int) → List Nat) (f1 f2 : MeshFields)
+    (h : (filterExternal (stepDups srt f1 f2)).isEmpty = false) :
+    merge1 srt f1 f2 = stepResult srt f1 f2 := by
+  unfold merge1 stepResult stepDups mergedPoints at *
+  simp only [h, Bool.false_eq_true, if_false]
+
+theorem merge1_eq_left (srt : List (List Int) → List Nat) (f1 f2 : MeshFields)
+    (h : (filterExternal (stepDups srt f1 f2)).isEmpty = true) :
+    merge1 srt f1 f2 = f1 := by
+  unfold merge1 stepDups at *
+  simp only [h, if_true]
+
+theorem rows_mem_cells (cells : List (String × List (List Nat))) (ct : String) (row : List Nat)
+    (h : row ∈ rowsOfType cells ct) : ∃ b ∈ cells, row ∈ b.2 := by
+  unfold rowsOfType at h
+  cases hf : cells.find? (·.1 == ct) with
+  | none => rw [hf] at h; cases h
+  | some b => rw [hf] at h; exact ⟨b, List.mem_of_find?_eq_some hf, h⟩
+
+theorem mem_types_of_rows (cells : List (String × List (List Nat))) (ct : String)
+    (h : rowsOfType cells ct ≠ []) : ct ∈ cells.map (·.1) := by
+  unfold rowsOfType at h
+  cases hf : cells.find? (·.1 == ct) with
+  | none => rw [hf] at h; exact absurd rfl h
+  | some b =>
+    have h1 := List.mem_of_find?_eq_some hf
+    have h2 : b.1 = ct := by simpa using List.find?_some hf
+    exact List.mem_map.mpr ⟨b, h1, h2⟩
+
+theorem findCellField_some (cfs : List CellField) (n ct : String) (a : CellField)
+    (h : findCellField cfs n ct = some a) : a ∈ cfs ∧ a.name = n ∧ a.ctype = ct := by
+  unfold findCellField at h
+  have h1 := List.mem_of_find?_eq_some h
+  have h2 := List.find?_some h
+  simp only [Bool.and_eq_true, beq_iff_eq] at h2
+  exact ⟨h1, h2.1, h2.2⟩
+
+/-- cell data of the merged mesh on a cell that came from the earlier mesh / the later piece -/
+theorem cellValue_step (srt : List (List Int) → List Nat) (f1 f2 : MeshFields) (d : Nat)
+    (cnames pnames : List String) (rsC rsP : String → Nat)
+    (h1 : PieceOk f1 d cnames pnames rsC rsP) (h2 : PieceOk f2 d cnames pnames rsC rsP)
+    (ct n : String) (hn : n ∈ cnames) :
+    (∀ c, c < (f1.mesh.cellsOf ct).length →
+        cellValue (stepResult srt f1 f2) n ct c = cellValue f1 n ct c) ∧
+    (∀ c, c < (f2.mesh.cellsOf ct).length →
+        cellValue (stepResult srt f1 f2) n ct ((f1.mesh.cellsOf ct).length + c) = cellValue f2 n ct c) := by
+  have hrows : (stepResult srt f1 f2).mesh.cellsOf ct =
+      f1.mesh.cellsOf ct ++ remapRows (mapExternal (stepDups srt f1 f2) f1.mesh.points.length) (f2.mesh.cellsOf ct) := by
+    simp only [cellsOf_eq_rowsOfType, stepResult]
+    exact rowsOfType_mergeCells _ _ _ ct
+  have hfind : ∀ (hne : (stepResult srt f1 f2).mesh.cellsOf ct ≠ []),
+      findCellField (stepResult srt f1 f2).cellFields n ct =
+        mergeCellEntry n ct (findCellField f1.cellFields n ct) (findCellField f2.cellFields n ct) := by
+    intro hne
+    simp only [stepResult]
+    apply findCellField_merge
+    exact mem_types_of_rows _ ct (by simpa [cellsOf_eq_rowsOfType, stepResult] using hne)
+  constructor
+  · intro c hc
+    have hne1 : f1.mesh.cellsOf ct ≠ [] := by intro h; rw [h] at hc; simp at hc
+    have hne : (stepResult srt f1 f2).mesh.cellsOf ct ≠ [] := by
+      rw [hrows]; intro h; exact hne1 (List.append_eq_nil_iff.mp h).1
+    have hs := h1.cfComplete ct hne1 n hn
+    unfold cellValue
+    rw [hfind hne]
+    cases ha : findCellField f1.cellFields n ct with
+    | none => rw [ha] at hs; cases hs
+    | some a =>
+      obtain ⟨ham, _, hact⟩ := findCellField_some _ _ _ _ ha
+      have hwf := (h1.cfWf a ham).1
+      rw [hact] at hwf
+      cases hb : findCellField f2.cellFields n ct with
+      | none => rfl
+      | some b => exact row_concat_left a.values b.values _ c hwf hc
+  · intro c hc
+    have hne2 : f2.mesh.cellsOf ct ≠ [] := by intro h; rw [h] at hc; simp at hc
+    have hne : (stepResult srt f1 f2).mesh.cellsOf ct ≠ [] := by
+      rw [hrows]; intro h
+      have := (List.append_eq_nil_iff.mp h).2
+      simp only [remapRows, List.map_eq_nil_iff] at this
+      exact hne2 this
+    have hs := h2.cfComplete ct hne2 n hn
+    unfold cellValue
+    rw [hfind hne]
+    cases hb : findCellField f2.cellFields n ct with
+    | none => rw [hb] at hs; cases hs
+    | some b =>
+      obtain ⟨hbm, hbn, _⟩ := findCellField_some _ _ _ _ hb
+      cases ha : findCellField f1.cellFields n ct with
+      | none =>
+        -- then the earlier mesh has no cell of this type
+        have hl1 : f1.mesh.cellsOf ct = [] := by
+          apply Classical.byContradiction
+          intro hne1
+          have := h1.cfComplete ct hne1 n hn
+          rw [ha] at this; cases this
+        simp [mergeCellEntry, hl1]
+      | some a =>
+        obtain ⟨ham, han, hact⟩ := findCellField_some _ _ _ _ ha
+        have hwf := (h1.cfWf a ham).1
+        rw [hact] at hwf
+        have hrs : b.values.rowSize = a.values.rowSize := by
+          rw [(h1.cfWf a ham).2, (h2.cfWf b hbm).2, han, hbn]
+        exact row_concat_right a.values b.values _ c hwf hrs
+
+theorem getD_map_default {α β} (f : α → β) (l : List α) (i : Nat) (d : α) (d' : β) (h : i < l.length) :
+    (l.map f).getD i d' = f (l.getD i d) := by
+  rw [List.getD_eq_getElem?_getD, List.getD_eq_getElem?_getD, List.getElem?_map,
+    List.getElem?_eq_getElem h]
+  rfl
+
+/-- **one merge step, cells**: for every cell type, the merged data set lists exactly the earlier
+    mesh's cells followed by the later piece's cells — same corner coordinates, same cell data -/
+theorem cellItemsOf_step (srt : List (List Int) → List Nat) (f1 f2 : MeshFields) (d : Nat)
+    (cnames pnames : List String) (rsC rsP : String → Nat)
+    (h1 : PieceOk f1 d cnames pnames rsC rsP) (h2 : PieceOk f2 d cnames pnames rsC rsP)
+    (hinv : DupInv f2.mesh.points f1.mesh.points f1.mesh.points.length (stepDups srt f1 f2))
+    (ct : String) :
+    cellItemsOf (stepResult srt f1 f2) cnames ct = cellItemsOf f1 cnames ct ++ cellItemsOf f2 cnames ct := by
+  have hrows : (stepResult srt f1 f2).mesh.cellsOf ct =
+      f1.mesh.cellsOf ct ++ remapRows (mapExternal (stepDups srt f1 f2) f1.mesh.points.length) (f2.mesh.cellsOf ct) := by
+    simp only [cellsOf_eq_rowsOfType, stepResult]
+    exact rowsOfType_mergeCells _ _ _ ct
+  have hpts : (stepResult srt f1 f2).mesh.points =
+      mergedPoints f1.mesh.points f2.mesh.points (stepDups srt f1 f2) := rfl
+  unfold cellItemsOf
+  rw [hrows, hpts, List.length_append]
+  have hlen : (remapRows (mapExternal (stepDups srt f1 f2) f1.mesh.points.length) (f2.mesh.cellsOf ct)).length
+      = (f2.mesh.cellsOf ct).length := by simp [remapRows]
+  rw [hlen, List.range_add, List.map_append, List.map_map]
+  congr 1
+  · apply List.map_congr_left
+    intro c hc
+    simp only [List.mem_range] at hc
+    have hrow : (f1.mesh.cellsOf ct ++ remapRows (mapExternal (stepDups srt f1 f2) f1.mesh.points.length)
+        (f2.mesh.cellsOf ct)).getD c [] = (f1.mesh.cellsOf ct).getD c [] := by
+      rw [List.getD_eq_getElem?_getD, List.getElem?_append_left hc, ← List.getD_eq_getElem?_getD]
+    rw [hrow]
+    congr 1
+    · -- corner coordinates: indices below n1 address the earlier points
+      apply List.map_congr_left
+      intro p hp
+      have hrowmem : (f1.mesh.cellsOf ct).getD c [] ∈ f1.mesh.cellsOf ct := by
+        rw [List.getD_eq_getElem?_getD, List.getElem?_eq_getElem hc]; exact List.getElem_mem hc
+      obtain ⟨b, hb, hrb⟩ := rows_mem_cells f1.mesh.cells ct _ hrowmem
+      have hlt := h1.cellIdx b hb _ hrb p hp
+      unfold mergedPoints
+      rw [List.getD_eq_getElem?_getD, List.getElem?_append_left hlt, ← List.getD_eq_getElem?_getD]
+    · apply List.map_congr_left
+      intro n hn
+      rw [(cellValue_step srt f1 f2 d cnames pnames rsC rsP h1 h2 ct n hn).1 c hc]
+  · apply List.map_congr_left
+    intro c hc
+    simp only [List.mem_range] at hc
+    simp only [Function.comp]
+    have hrow : (f1.mesh.cellsOf ct ++ remapRows (mapExternal (stepDups srt f1 f2) f1.mesh.points.length)
+        (f2.mesh.cellsOf ct)).getD ((f1.mesh.cellsOf ct).length + c) [] =
+        ((f2.mesh.cellsOf ct).getD c []).map fun p =>
+          (mapExternal (stepDups srt f1 f2) f1.mesh.points.length).getD p 0 := by
+      rw [List.getD_eq_getElem?_getD, List.getElem?_append_right (by omega), Nat.add_sub_cancel_left,
+        ← List.getD_eq_getElem?_getD]
+      unfold remapRows
+      exact getD_map_default _ _ c [] [] hc
+    rw [hrow, List.map_map]
+    congr 1
+    · apply List.map_congr_left
+      intro p hp
+      have hrowmem : (f2.mesh.cellsOf ct).getD c [] ∈ f2.mesh.cellsOf ct := by
+        rw [List.getD_eq_getElem?_getD, List.getElem?_eq_getElem hc]; exact List.getElem_mem hc
+      obtain ⟨b, hb, hrb⟩ := rows_mem_cells f2.mesh.cells ct _ hrowmem
+      have hlt := h2.cellIdx b hb _ hrb p hp
+      exact remap_point f1.mesh.points f2.mesh.points _ hinv p hlt
+    · apply List.map_congr_left
+      intro n hn
+      rw [(cellValue_step srt f1 f2 d cnames pnames rsC rsP h1 h2 ct n hn).2 c hc]
+
+/-! ### merged point fields -/
+
+theorem mergePointEntry_name (n2 : Nat) (filt : List Nat) (a : PointField) (b : Option PointField) :
+    (mergePointEntry n2 filt a b).name = a.name := by
+  cases b <;> rfl
+
+theorem find_map_name (g : PointField → PointField) (hg : ∀ a, (g a).name = a.name)
+    (l : List PointField) (n : String) :
+    (l.map g).find? (·.name == n) = (l.find? (·.name == n)).map g := by
+  induction l with
+  | nil => rfl
+  | cons a r ih =>
+    simp only [List.map_cons, List.find?_cons, hg]
+    cases (a.name == n) with
+    | true => rfl
+    | false => exact ih
+
+theorem flatMap_chunk {α} (g : Nat → List α) (rs : Nat) (idx : List Nat)
+    (h : ∀ i ∈ idx, (g i).length = rs) (r : Nat) (hr : r < idx.length) :
+    ((idx.flatMap g).drop (r * rs)).take rs = g (idx.getD r 0) := by
+  induction idx generalizing r with
+  | nil => simp at hr
+  | cons i rest ih =>
+    have hi := h i (List.mem_cons_self ..)
+    cases r with
+    | zero =>
+      simp only [List.flatMap_cons, Nat.zero_mul, List.drop_zero, List.getD_cons_zero]
+      rw [List.take_append_of_le_length (by omega), List.take_of_length_le (by omega)]
+    | succ r =>
+      simp only [List.flatMap_cons, List.getD_cons_succ]
+      have : (r + 1) * rs = (g i).length + r * rs := by rw [Nat.add_mul, Nat.one_mul, hi]; omega
+      rw [this, List.drop_append]
+      rw [List.drop_eq_nil_of_le (by omega)]
+      simp only [List.nil_append, Nat.add_sub_cancel_left]
+      exact ih (fun j hj => h j (List.mem_cons_of_mem _ hj)) r (by simpa using hr)
+
+theorem row_length (a : NdArr) (l i : Nat) (ha : a.data.length = l * a.rowSize) (hi : i < l) :
+    (a.row i).length = a.rowSize := by
+  simp only [NdArr.row, List.length_take, List.length_drop]
+  have h1 : (i + 1) * a.rowSize ≤ l * a.rowSize := Nat.mul_le_mul_right _ hi
+  rw [Nat.add_mul, Nat.one_mul] at h1
+  omega
+
+theorem row_takeRows (b : NdArr) (l : Nat) (idx : List Nat) (hb : b.data.length = l * b.rowSize)
+    (hidx : ∀ i ∈ idx, i < l) (r : Nat) (hr : r < idx.length) :
+    (b.takeRows idx).row r = b.row (idx.getD r 0) := by
+  have hrs : (b.takeRows idx).rowSize = b.rowSize := by simp [NdArr.takeRows, NdArr.rowSize]
+  simp only [NdArr.row, hrs]
+  simp only [NdArr.takeRows]
+  have := flatMap_chunk b.row b.rowSize idx (fun i hi => row_length b l i hb (hidx i hi)) r hr
+  simpa [NdArr.row] using this
+
+/-- point data of the merged mesh at an earlier point / at the `r`-th appended point -/
+theorem pointValue_step (srt : List (List Int) → List Nat) (f1 f2 : MeshFields) (d : Nat)
+    (cnames pnames : List String) (rsC rsP : String → Nat)
+    (h1 : PieceOk f1 d cnames pnames rsC rsP) (h2 : PieceOk f2 d cnames pnames rsC rsP)
+    (hinv : DupInv f2.mesh.points f1.mesh.points f1.mesh.points.length (stepDups srt f1 f2))
+    (n : String) (hn : n ∈ pnames) :
+    (∀ p, p < f1.mesh.points.length → pointValue (stepResult srt f1 f2) n p = pointValue f1 n p) ∧
+    (∀ r, r < (filterExternal (stepDups srt f1 f2)).length →
+      pointValue (stepResult srt f1 f2) n (f1.mesh.points.length + r) =
+        pointValue f2 n ((filterExternal (stepDups srt f1 f2)).getD r 0)) := by
+  have hs1 := h1.pfComplete n hn
+  have hs2 := h2.pfComplete n hn
+  cases ha : f1.pointFields.find? (·.name == n) with
+  | none => rw [ha] at hs1; cases hs1
+  | some a =>
+    have ham := List.mem_of_find?_eq_some ha
+    have han : a.name = n := by simpa using List.find?_some ha
+    cases hb : f2.pointFields.find? (·.name == n) with
+    | none => rw [hb] at hs2; cases hs2
+    | some b =>
+      have hbm := List.mem_of_find?_eq_some hb
+      have hbn : b.name = n := by simpa using List.find?_some hb
+      have hfind : (stepResult srt f1 f2).pointFields.find? (·.name == n) =
+          some ⟨a.name, a.values.concat (b.values.takeRows (filterExternal (stepDups srt f1 f2)))⟩ := by
+        simp only [stepResult, mergePointFields]
+        rw [List.find?_append, find_map_name _ (fun a => mergePointEntry_name _ _ a _), ha]
+        simp only [Option.map_some, Option.some_or, han, hb, mergePointEntry]
+      have hwa := (h1.pfWf a ham).1
+      have hrs : (b.values.takeRows (filterExternal (stepDups srt f1 f2))).rowSize = a.values.rowSize := by
+        have : (b.values.takeRows (filterExternal (stepDups srt f1 f2))).rowSize = b.values.rowSize := by
+          simp [NdArr.takeRows, NdArr.rowSize]
+        rw [this, (h1.pfWf a ham).2, (h2.pfWf b hbm).2, han, hbn]
+      constructor
+      · intro p hp
+        unfold pointValue
+        rw [hfind, ha]
+        exact row_concat_left a.values _ _ p hwa hp
+      · intro r hr
+        unfold pointValue
+        rw [hfind, hb]
+        simp only
+        rw [row_concat_right a.values _ _ r hwa hrs]
+        apply row_takeRows b.values f2.mesh.points.length _ (h2.pfWf b hbm).1 _ r hr
+        intro i hi
+        obtain ⟨r', hr', hri⟩ := List.getElem_of_mem hi
+        have := (filter_entry_lt _ r' i (by rw [List.getElem?_eq_getElem hr', hri])).1
+        rwa [hinv.len] at this
+
+/-- **one merge step, points**: the merged point items are the earlier mesh's point items followed by
+    the items of the later piece's kept (non-duplicate) points -/
+theorem pointItemsOf_step (srt : List (List Int) → List Nat) (f1 f2 : MeshFields) (d : Nat)
+    (cnames pnames : List String) (rsC rsP : String → Nat)
+    (h1 : PieceOk f1 d cnames pnames rsC rsP) (h2 : PieceOk f2 d cnames pnames rsC rsP)
+    (hinv : DupInv f2.mesh.points f1.mesh.points f1.mesh.points.length (stepDups srt f1 f2)) :
+    pointItemsOf (stepResult srt f1 f2) pnames =
+      pointItemsOf f1 pnames ++ (filterExternal (stepDups srt f1 f2)).map (pointItemBy f2 pnames) := by
+  have hpts : (stepResult srt f1 f2).mesh.points =
+      mergedPoints f1.mesh.points f2.mesh.points (stepDups srt f1 f2) := rfl
+  unfold pointItemsOf
+  rw [hpts]
+  simp only [mergedPoints, List.length_append, List.length_map]
+  rw [List.range_add, List.map_append, List.map_map]
+  congr 1
+  · apply List.map_congr_left
+    intro p hp
+    simp only [List.mem_range] at hp
+    unfold pointItemBy
+    congr 1
+    · rw [hpts]; unfold mergedPoints
+      rw [List.getD_eq_getElem?_getD, List.getElem?_append_left hp, ← List.getD_eq_getElem?_getD]
+    · apply List.map_congr_left
+      intro n hn
+      rw [(pointValue_step srt f1 f2 d cnames pnames rsC rsP h1 h2 hinv n hn).1 p hp]
+  · apply List.ext_getElem?
+    intro r
+    simp only [List.getElem?_map, List.getElem?_range]
+    by_cases hr : r < (filterExternal (stepDups srt f1 f2)).length
+    · rw [List.getElem?_eq_getElem hr]
+      simp only [hr, List.getElem?_range, Option.map_some, Function.comp, Option.some.injEq]
+      have hget : (filterExternal (stepDups srt f1 f2)).getD r 0 = (filterExternal (stepDups srt f1 f2))[r] := by
+        rw [List.getD_eq_getElem?_getD, List.getElem?_eq_getElem hr]; rfl
+      unfold pointItemBy
+      congr 1
+      · rw [hpts]; unfold mergedPoints
+        rw [List.getD_eq_getElem?_getD, List.getElem?_append_right (by omega), Nat.add_sub_cancel_left,
+          List.getElem?_map, List.getElem?_eq_getElem hr]
+        rfl
+      · apply List.map_congr_left
+        intro n hn
+        rw [(pointValue_step srt f1 f2 d cnames pnames rsC rsP h1 h2 hinv n hn).2 r hr, hget]
+    · have hr' : (filterExternal (stepDups srt f1 f2)).length ≤ r := by omega
+      rw [List.getElem?_eq_none hr']
+      simp [hr]
+
 end Fc
